@@ -60,11 +60,18 @@ func splitFrames(buf *[]byte) [][]byte {
 	}
 }
 
-func decodeFrame(compression string, raw []byte) (*frame.Frame, error) {
+func decodeFrame(compression string, raw []byte) (frm *frame.Frame, err error) {
 	c, ok := refCodecs[compression]
 	if !ok {
 		return nil, fmt.Errorf("unknown compression %q", compression)
 	}
+	// the reference codec panics on some malformed bodies: bytes the SUT produced that make it
+	// panic are undecodable bytes (a finding), not a harness failure
+	defer func() {
+		if r := recover(); r != nil {
+			frm, err = nil, fmt.Errorf("reference codec panicked: %v", r)
+		}
+	}()
 	return c.DecodeFrame(bytes.NewReader(raw))
 }
 
